@@ -136,6 +136,9 @@ def gen_pair(rng):
         plain = [f['name'] for f in m['fields'] if f['type'] not in ('ManyToManyField', 'TextField') and f['name'] != 'id']
         if plain and rng.random() < 0.3:
             m['indexes'] = m['indexes'] + [{'name': '%s_jx' % m['name'].lower(), 'fields': [rng.choice(plain)]}]
+        if rng.random() < 0.3:
+            # a table comment that stays as it is through the whole upgrade (clones, hints and diffs must carry it)
+            m['comment'] = 'rows of %s' % m['name']
     old = sigs.sig_from_spec(spec)
     stored_form = rng.random() < 0.25
     if stored_form:
